@@ -71,7 +71,7 @@ fn c08_fuzz(ctx: &ShardCtx) -> ShardResult {
     crate::engine::run_fuzz(ctx, "seq_target", "C08")
 }
 
-const FUZZ_RULE: &str = "thorough tier only: libFuzzer (cargo-fuzz, AddressSanitizer) campaigns (120000 executions per shard for histories, 200000 for storage sequences) on a target that decodes bytes (arbitrary::Unstructured) into the same SeqCase type (all 20 storage configurations, dense and sparse pools) and runs the same interpreter and oracles, so silent heap corruption in the unsafe storage code becomes a crash; non-trivial as in the proptest part; counts come from the target";
+const FUZZ_RULE: &str = "thorough tier only: libFuzzer (cargo-fuzz, AddressSanitizer) campaigns (120000 executions per shard for histories, 200000 for storage sequences) on a target that decodes bytes (arbitrary::Unstructured) into the same SeqCase type (all 21 storage configurations, dense and sparse pools) and runs the same interpreter and oracles, so silent heap corruption in the unsafe storage code becomes a crash; non-trivial as in the proptest part; counts come from the target";
 
 pub fn c04() -> Property {
     Property {
@@ -144,7 +144,7 @@ pub fn c08() -> Property {
                 shards: |t: Tier| t.pick(6, 16),
                 run: c08_seq_run,
                 replay: c08_replay_seq,
-                rule: "single-storage sequences as C04 over all 20 configurations (incl. two component types without drop glue, zero-sized components in NullStorage and placeholder slots of DefaultVecStorage), every component value instrumented with a serial + canary; ledger invariant after every step and after dropping the world: no serial destroyed twice, every value read through get/join/slice is live with an intact canary, nothing left alive at the end; non-trivial = an overwrite or remove, a deletion of an entity holding a component, and live components at world drop", exe_env: None
+                rule: "single-storage sequences as C04 over all 21 configurations (incl. three component types without drop glue, zero-sized components in NullStorage and placeholder slots of DefaultVecStorage), every component value instrumented with a serial + canary; ledger invariant after every step and after dropping the world: no serial destroyed twice, every value read through get/join/slice is live with an intact canary, nothing left alive at the end; non-trivial = an overwrite or remove, a deletion of an entity holding a component, and live components at world drop", exe_env: None
             },
             SubCheck {
                 name: "histories",
@@ -288,9 +288,15 @@ fn run_fault(fc: &FaultCase) -> Result<SeqFacts, Violation> {
 }
 
 fn c19_run(ctx: &ShardCtx) -> ShardResult {
-    let cases = ctx.tier.pick(1200, 20_000);
+    // thorough: many short-lived workers (runs that panic inside the world's own drop leak memory by design)
+    let cases = ctx.tier.pick(1200, 5_000);
     let max_prefix = ctx.tier.pick(20, 60);
-    run_proptest(ctx, proto_strategy(max_prefix), cases, 19, |(seq, at), stats| {
+    run_proptest(ctx, proto_strategy(max_prefix), cases, 19, |(seq, at), stats| c19_proto(seq, at, stats))
+}
+
+/// One generated (prefix, destroying operation, continuation): dry run, then one run per fault point.
+pub fn c19_proto(seq: &SeqCase, at: &usize, stats: &mut Stats) -> Verdict {
+    {
         // dry run: which values does the destroying operation destroy?
         let mut dry = seq.clone();
         dry.ops.truncate(*at + 1);
@@ -309,12 +315,17 @@ fn c19_run(ctx: &ShardCtx) -> ShardResult {
         // every fault point of this operation (bounded at 24, first and last always included)
         let mut points: Vec<(Option<u64>, Option<u64>)> = serials.iter().map(|s| (Some(*s), None)).collect();
         points.extend((1..=nz).map(|o| (None, Some(o))));
-        if points.len() > 24 {
+        // A destructor panic while the *world* is dropped makes shred's resource table leak whatever it had
+        // not dropped yet (allowed: C19 is about double drops and stale reads, and the statement says a
+        // panicking destructor may leak). In worlds of half a million entities that is megabytes per
+        // run, so those get fewer fault points.
+        let cap = if matches!(seq.ops[*at], SOp::DropWorld) && matches!(seq.pool, stoseq::Pool::Layered { .. }) { 4 } else { 24 };
+        if points.len() > cap {
             let n = points.len();
-            let mut keep: Vec<(Option<u64>, Option<u64>)> = (0..24).map(|i| points[i * (n - 1) / 23]).collect();
+            let mut keep: Vec<(Option<u64>, Option<u64>)> = (0..cap).map(|i| points[i * (n - 1) / (cap - 1)]).collect();
             keep.dedup();
             points = keep;
-            stats.label("fault_points_capped_at_24");
+            stats.label("fault_points_capped");
         }
         for (k, (serial, zo)) in points.iter().enumerate() {
             let fc = FaultCase { seq: seq.clone(), at: *at, serial: *serial, zst_ordinal: *zo };
@@ -339,7 +350,7 @@ fn c19_run(ctx: &ShardCtx) -> ShardResult {
             }
         }
         Ok(())
-    })
+    }
 }
 
 fn op_name(op: &SOp) -> &'static str {
@@ -370,18 +381,10 @@ fn c19_replay(v: &Value) -> Verdict {
         let fc: FaultCase = parse_case("fault", v)?;
         return run_fault(&fc).map(|_| ());
     }
+    // a prototype: the same (capped) set of fault points as the generated run
     let (seq, at): Proto = parse_case("fault-proto", v)?;
-    let mut dry = seq.clone();
-    dry.ops.truncate(at + 1);
-    let mode = Mode { diff_tag: "C19", check_events: false, fault_at: None, bomb: Bomb::None , ledger_only: false, events_only: false };
-    let f = stoseq::run_case_dyn(&dry, &mode)?;
-    for s in &f.destroyed_in_last_op {
-        run_fault(&FaultCase { seq: seq.clone(), at, serial: Some(*s), zst_ordinal: None })?;
-    }
-    for o in 1..=f.zst_destroyed_in_last_op {
-        run_fault(&FaultCase { seq: seq.clone(), at, serial: None, zst_ordinal: Some(o) })?;
-    }
-    Ok(())
+    let mut stats = Stats::default();
+    c19_proto(&seq, &at, &mut stats)
 }
 
 pub fn c19() -> Property {
@@ -390,10 +393,10 @@ pub fn c19() -> Property {
         subs: vec![
             SubCheck {
                 name: "faults",
-                shards: |t: Tier| t.pick(8, 16),
+                shards: |t: Tier| t.pick(8, 64),
                 run: c19_run,
                 replay: c19_replay,
-                rule: "generated prefix (<=20 ops quick, <=60 thorough) + one destroying operation (clear, delete_all, delete_entity, delete_entities incl. failing batch, maintain with a pending deletion, overwrite, remove, GenericWriteStorage::remove, drain, lazy insert + maintain, entry replace/insert, dropping the world) over all 20 storage configurations; a dry run lists the values the operation destroys, then the identical run is repeated once per such value (all of them, capped at 24 spread evenly incl. first and last) with that value's destructor panicking; after catch_unwind: no serial destroyed twice, every value visible through get/join/slices (this storage and an auxiliary one) is live with an intact canary, the model is re-synchronised from the observable state and a generated continuation of up to 30 ordinary operations (biased to refills and removals) is checked differentially, then the world is dropped (again: no double destruction); leaks after the panic are only counted; non-trivial = the operation destroys >= 2 values and the panic was caught", exe_env: None
+                rule: "generated prefix (<=20 ops quick, <=60 thorough) + one destroying operation (clear, delete_all, delete_entity, delete_entities incl. failing batch, maintain with a pending deletion, overwrite, remove, GenericWriteStorage::remove, drain, lazy insert + maintain, entry replace/insert, dropping the world) over all 21 storage configurations; a dry run lists the values the operation destroys, then the identical run is repeated once per such value (all of them, capped at 24 - 4 for the drop of a half-million-entity world - spread evenly incl. first and last) with that value's destructor panicking; after catch_unwind: no serial destroyed twice, every value visible through get/join/slices (this storage and an auxiliary one) is live with an intact canary, the model is re-synchronised from the observable state and a generated continuation of up to 30 ordinary operations (biased to refills and removals) is checked differentially, then the world is dropped (again: no double destruction); leaks after the panic are only counted; non-trivial = the operation destroys >= 2 values and the panic was caught", exe_env: None
             },
             crate::props_join::c19_changeset_sub(),
         ],
@@ -460,7 +463,7 @@ pub fn c13() -> Property {
             shards: |t: Tier| t.pick(6, 12),
             run: c13_seq_run,
             replay: replay_seq,
-            rule: "sequences over all 20 storage configurations that change the content (insert, remove, entity deletion / creation, emission toggling) interleaved with restricted joins: lend_join (PairedStorageWriteExclusive) and join (PairedStorageWriteShared) over &mut restrict_mut() with a generated subset of items fetched mutably and written; visited items == storage members in order, item.get() == map value, afterwards the full storage equals the map (only the chosen entities changed, mask unchanged) and on tracked storages the Modified events are exactly the mutably fetched set; non-trivial = >= 3 distinct indices and a strict non-empty subset fetched mutably",
+            rule: "sequences over all 21 storage configurations that change the content (insert, remove, entity deletion / creation, emission toggling) interleaved with restricted joins: lend_join (PairedStorageWriteExclusive) and join (PairedStorageWriteShared) over &mut restrict_mut() with a generated subset of items fetched mutably and written; visited items == storage members in order, item.get() == map value, afterwards the full storage equals the map (only the chosen entities changed, mask unchanged) and on tracked storages the Modified events are exactly the mutably fetched set; non-trivial = >= 3 distinct indices and a strict non-empty subset fetched mutably",
             exe_env: None,
         },
         SubCheck {
